@@ -139,6 +139,9 @@ theorem wfFrame_shape (m : Bytes) (h : wfFrame m = true) :
     ∃ v ds body' ck, m = frameThen v ds body' ck [] ∧ (∀ x ∈ v, x ≠ 1) ∧ ds ≠ [] ∧ ds.all isDigit = true ∧
       digitsVal ds = body'.length + 1 ∧ (∀ x ∈ ck, x ≠ 1) ∧ m.length < 9223372036854775807 := by
   unfold wfFrame at h
+  simp only [Bool.and_eq_true, decide_eq_true_eq] at h
+  obtain ⟨hlen, h⟩ := h
+  unfold wfShape at h
   split at h
   · rename_i r1
     split at h
@@ -148,7 +151,7 @@ theorem wfFrame_shape (m : Bytes) (h : wfFrame m = true) :
       · rename_i ds r3 hs2
         obtain ⟨e2, hds⟩ := splitSOH_spec _ _ _ hs2
         simp only [Bool.and_eq_true, Bool.not_eq_true', List.isEmpty_eq_false_iff, decide_eq_true_eq, beq_iff_eq] at h
-        obtain ⟨⟨hne, hdd⟩, ⟨hpos, hlen⟩, hlast, htr⟩ := h
+        obtain ⟨⟨hne, hdd⟩, hpos, hlast, htr⟩ := h
         split at htr
         · rename_i r4 htr4
           split at htr
@@ -342,5 +345,163 @@ theorem mkParts_stream : ∀ (toks : List (Bool × Bytes)), (mkParts toks).strea
     | true =>
       simp only [mkParts, List.map_cons, List.flatten_cons, ← ih]
       simp [Parts.stream]
+
+end Qfx.Framer
+
+namespace Qfx.Framer
+open Qfx Qfx.Spec
+
+/-! ## `indexOf` is "first occurrence" (so the whole-stream spec means what it says) -/
+
+theorem indexOf_some_iff (d : Bytes) : ∀ (s : Bytes) (i : Nat),
+    indexOf d s = some i ↔ (i ≤ s.length ∧ d <+: s.drop i ∧ ∀ k, k < i → ¬ d <+: s.drop k) := by
+  intro s
+  induction s with
+  | nil =>
+    intro i
+    simp only [indexOf, List.length_nil, Nat.le_zero_eq, List.drop_nil, List.prefix_nil]
+    constructor
+    · intro h
+      split at h
+      · rename_i hd
+        cases h
+        have : d = [] := by simpa using hd
+        exact ⟨rfl, this, by intro k hk; omega⟩
+      · cases h
+    · rintro ⟨hi, hd, _⟩
+      subst hi hd
+      simp
+  | cons x xs ih =>
+    intro i
+    simp only [indexOf]
+    by_cases hp : d.isPrefixOf (x :: xs) = true
+    · simp only [hp, if_true, Option.some.injEq]
+      constructor
+      · intro h; subst h
+        exact ⟨by simp, by simpa using (isPrefixOf_iff _ _).1 hp, by intro k hk; omega⟩
+      · rintro ⟨_, _, hmin⟩
+        rcases Nat.eq_zero_or_pos i with h0 | h0
+        · exact h0.symm
+        · exact absurd (by simpa using (isPrefixOf_iff _ _).1 hp) (hmin 0 h0)
+    · simp only [hp, Bool.false_eq_true, if_false]
+      have hp' : ¬ d <+: (x :: xs) := fun h => hp ((isPrefixOf_iff _ _).2 h)
+      constructor
+      · intro h
+        cases hx : indexOf d xs with
+        | none => simp [hx] at h
+        | some j =>
+          simp only [hx, Option.map_some, Option.some.injEq] at h
+          subst h
+          obtain ⟨h1, h2, h3⟩ := (ih j).1 hx
+          refine ⟨by simp only [List.length_cons]; omega, by simpa using h2, ?_⟩
+          intro k hk
+          cases k with
+          | zero => simpa using hp'
+          | succ k => simpa using h3 k (by omega)
+      · rintro ⟨h1, h2, h3⟩
+        cases i with
+        | zero => exact absurd (by simpa using h2) hp'
+        | succ j =>
+          have : indexOf d xs = some j := (ih j).2
+            ⟨by simp only [List.length_cons] at h1; omega, by simpa using h2,
+             by intro k hk; simpa using h3 (k + 1) (by omega)⟩
+          simp [this]
+
+theorem indexOf_none_iff (d : Bytes) : ∀ (s : Bytes),
+    indexOf d s = none ↔ ∀ k, k ≤ s.length → ¬ d <+: s.drop k := by
+  intro s
+  induction s with
+  | nil =>
+    simp only [indexOf, List.length_nil, Nat.le_zero_eq, List.drop_nil, List.prefix_nil]
+    constructor
+    · intro h k _
+      split at h
+      · cases h
+      · rename_i hd; simpa using hd
+    · intro h
+      have := h 0 rfl
+      simp [this]
+  | cons x xs ih =>
+    simp only [indexOf]
+    by_cases hp : d.isPrefixOf (x :: xs) = true
+    · simp only [hp, if_true]
+      constructor
+      · intro h; cases h
+      · intro h
+        exact absurd (by simpa using (isPrefixOf_iff _ _).1 hp) (h 0 (by simp))
+    · simp only [hp, Bool.false_eq_true, if_false, Option.map_eq_none_iff]
+      have hp' : ¬ d <+: (x :: xs) := fun h => hp ((isPrefixOf_iff _ _).2 h)
+      rw [ih]
+      constructor
+      · intro h k hk
+        cases k with
+        | zero => simpa using hp'
+        | succ k => simpa using h k (by simp only [List.length_cons] at hk; omega)
+      · intro h k hk
+        simpa using h (k + 1) (by simp only [List.length_cons]; omega)
+
+/-- `findFrom off d s = some i`: `i` is the first position ≥ `off` where `d` occurs in `s` -/
+theorem findFrom_some_iff (off : Nat) (d s : Bytes) (i : Nat) :
+    findFrom off d s = some i ↔
+      (off ≤ i ∧ i ≤ s.length ∧ d <+: s.drop i ∧ ∀ k, off ≤ k → k < i → ¬ d <+: s.drop k) := by
+  unfold findFrom
+  by_cases hle : off ≤ s.length
+  · simp only [hle, if_true]
+    constructor
+    · intro h
+      cases hx : indexOf d (s.drop off) with
+      | none => simp [hx] at h
+      | some j =>
+        simp only [hx, Option.map_some, Option.some.injEq] at h
+        subst h
+        obtain ⟨h1, h2, h3⟩ := (indexOf_some_iff d _ j).1 hx
+        simp only [List.length_drop, List.drop_drop] at h1 h2 h3
+        refine ⟨by omega, by omega, by rw [Nat.add_comm]; exact h2, ?_⟩
+        intro k hk1 hk2
+        have := h3 (k - off) (by omega)
+        rwa [show off + (k - off) = k by omega] at this
+    · rintro ⟨h1, h2, h3, h4⟩
+      have : indexOf d (s.drop off) = some (i - off) := by
+        rw [indexOf_some_iff]
+        simp only [List.length_drop, List.drop_drop]
+        refine ⟨by omega, by rw [show off + (i - off) = i by omega]; exact h3, ?_⟩
+        intro k hk
+        exact h4 (off + k) (by omega) (by omega)
+      simp only [this, Option.map_some, Option.some.injEq]; omega
+  · simp only [hle, if_false]
+    constructor
+    · intro h; cases h
+    · rintro ⟨h1, h2, _⟩; omega
+
+/-! ## `wfFrame` accepts every frame of the stated shape -/
+
+theorem splitSOH_append : ∀ (a r : Bytes), (∀ x ∈ a, x ≠ 1) → splitSOH (a ++ 1 :: r) = some (a, r) := by
+  intro a
+  induction a with
+  | nil => intro r _; simp [splitSOH]
+  | cons x xs ih =>
+    intro r h
+    have hx : x ≠ 1 := h x (by simp)
+    simp only [List.cons_append, splitSOH, hx, if_false, ih r (fun y hy => h y (by simp [hy]))]
+    rfl
+
+theorem wfFrame_of_shape (v ds body' ck : Bytes) (hv : ∀ x ∈ v, x ≠ 1) (hne : ds ≠ []) (hdd : ds.all isDigit = true)
+    (hval : digitsVal ds = body'.length + 1) (hck : ∀ x ∈ ck, x ≠ 1)
+    (hlen : (frameThen v ds body' ck []).length < 9223372036854775807) :
+    wfFrame (frameThen v ds body' ck []) = true := by
+  have hds := digit_ne_soh ds hdd
+  have e3 : ds ++ 1 :: (body' ++ 1 :: 49 :: 48 :: 61 :: (ck ++ [1])) =
+      ds ++ 1 :: ((body' ++ [1]) ++ 49 :: 48 :: 61 :: (ck ++ [1])) := by simp
+  have hl : (body' ++ [1]).length = body'.length + 1 := by simp
+  unfold wfFrame
+  simp only [hlen, decide_true, Bool.true_and]
+  unfold wfShape
+  simp only [frameThen]
+  rw [splitSOH_append v _ hv]
+  simp only
+  rw [e3, splitSOH_append ds _ hds]
+  simp only [hval, ← hl, List.take_left, List.drop_left, splitSOH_append ck [] hck]
+  have : ds.isEmpty = false := by cases ds <;> simp_all
+  simp [this, hdd]
 
 end Qfx.Framer
